@@ -1,10 +1,16 @@
 #!/bin/bash
-# usage: run_seed.sh <patch> <prop> [tier]  — applies the patch to /repo, runs the check, reverts. Prints the verdict lines.
+# usage: run_seed.sh <patch> <prop> [tier]
+# Applies the patch to a scratch copy of /repo's working tree (VERIF_REPO points the check at it, so /repo itself is
+# not disturbed while other work goes on), runs the check, removes the copy. Equivalent to
+#   git -C /repo apply <patch>; ./check <prop>; git -C /repo checkout -- .
 P=$1; PROP=$2; TIER=${3:-quick}
-cd /repo || exit 9
-if ! git apply --check "$P" 2>/dev/null; then echo "SEED $P: does not apply"; exit 8; fi
-git apply "$P"
-cd /verif && ./check $PROP --tier $TIER > /tmp/seed_run.out 2>&1; rc=$?
-git -C /repo checkout -- . 
+S=$(mktemp -d /tmp/seedrepo_XXXX)
+rsync -a --exclude target --exclude .git /repo/ $S/
+cd $S || exit 9
+if ! patch -p1 --dry-run -s < "$P" >/dev/null 2>&1; then echo "SEED $P: does not apply"; rm -rf $S; exit 8; fi
+patch -p1 -s < "$P"
+cd /verif && VERIF_REPO=$S ./check $PROP --tier $TIER > /tmp/seed_run_$$.out 2>&1; rc=$?
+rm -rf $S
 echo "SEED $(basename $(dirname $P))/$(basename $P) prop=$PROP exit=$rc"
-grep -E "VIOLATION|KNOWN-FINDING|INCONCLUSIVE|FAILED obligation|inconclusive|OK:" /tmp/seed_run.out | cut -c1-300 | head -8
+grep -E "VIOLATION|KNOWN-FINDING|INCONCLUSIVE|FAILED obligation|inconclusive|OK:" /tmp/seed_run_$$.out | cut -c1-300 | head -8
+rm -f /tmp/seed_run_$$.out
